@@ -143,54 +143,69 @@ def Verdict.isPass : Verdict → Bool
   | .pass => true
   | _ => false
 
-/-- one decorator of the cosmos chain, by constructor name.  Decorators that are not part of the property
-    (context set-up, fees, memo, signatures, sequence, IBC) are the identity here: they may still refuse a
+/-- the decorators the property is about; every other constructor name is `other` -/
+inductive DecKind where
+  | rejectMsgs | extOpts | mempool | vesting | authz | ethOnly | other
+  deriving DecidableEq, Repr
+
+/-- constructor name (as written in ante.go) → which modelled decorator it is -/
+def classifyDec (name : String) : DecKind :=
+  if name == "evmante.RejectMessagesDecorator" then .rejectMsgs
+  else if name == "authante.NewExtensionOptionsDecorator" then .extOpts
+  else if name == "NewAuthenticatedMempoolDecorator" then .mempool
+  else if name == "NewVestingAccountDecorator" then .vesting
+  else if name == "NewAuthzLimiterDecorator" then .authz
+  else if name == "evmante.NewEthSigVerificationDecorator" then .ethOnly
+  else .other
+
+/-- the `if` conditions under which newCosmosAnteHandler appends a decorator -/
+inductive CondKind where
+  | always | notEIP712 | isEIP712 | hasFetchers | unknown
+  deriving DecidableEq, Repr
+
+def classifyCond (c : String) : CondKind :=
+  if c == "" then .always
+  else if c == "!isEIP712" then .notEIP712
+  else if c == "isEIP712" then .isEIP712
+  else if c == "hasFetchers" then .hasFetchers
+  else .unknown
+
+/-- the generated chains, classified -/
+def cosmosChainK : List (CondKind × DecKind) := c15CosmosChain.map fun cn => (classifyCond cn.1, classifyDec cn.2)
+def ethChainK : List (CondKind × DecKind) := c15EthChain.map fun cn => (classifyCond cn.1, classifyDec cn.2)
+
+/-- one decorator.  Decorators that are not part of the property (context set-up, fees, memo, signatures,
+    sequence, IBC, the EVM account / balance / gas checks) are the identity here: they may still refuse a
     transaction, which only makes fewer transactions accepted. -/
-def decStep (cfg : Cfg) (md : Mode) (tx : Tx) (name : String) : Verdict :=
-  if name == "evmante.RejectMessagesDecorator" then
-    if rejectMsgsDec tx.msgs then .pass else .reject "reject-msgs"
-  else if name == "authante.NewExtensionOptionsDecorator" then
-    if c15ExtensionOptionCheckerNil && !tx.opts.isEmpty then .reject "ext-options" else .pass
-  else if name == "NewAuthenticatedMempoolDecorator" then
-    if mempoolDec md tx.signers cfg.authorised then .pass else .reject "mempool"
-  else if name == "NewVestingAccountDecorator" then
-    if vestingDec c15VestingDisabled tx.msgs then .pass else .reject "vesting"
-  else if name == "NewAuthzLimiterDecorator" then
+def decStep (cfg : Cfg) (md : Mode) (tx : Tx) : DecKind → Verdict
+  | .rejectMsgs => if rejectMsgsDec tx.msgs then .pass else .reject "reject-msgs"
+  | .extOpts => if c15ExtensionOptionCheckerNil && !tx.opts.isEmpty then .reject "ext-options" else .pass
+  | .mempool => if mempoolDec md tx.signers cfg.authorised then .pass else .reject "mempool"
+  | .vesting => if vestingDec c15VestingDisabled tx.msgs then .pass else .reject "vesting"
+  | .authz =>
     match authzLimiter c15AuthzDisabled tx.msgs with
     | .ok => .pass
     | .err => .reject "authz"
     | .panic => .reject "panic"          -- `defer Recover(…)` in NewAnteHandler turns the panic into ErrPanic
-  else .pass
+  | .ethOnly => if ethOnlyDec tx.msgs then .pass else .reject "eth-only"
+  | .other => .pass
 
-/-- the `if` conditions under which newCosmosAnteHandler appends a decorator -/
-def condHolds (cfg : Cfg) (eip712 : Bool) (c : String) : Bool :=
-  if c == "" then true
-  else if c == "!isEIP712" then !eip712
-  else if c == "isEIP712" then eip712
-  else if c == "hasFetchers" then hasFetchers cfg
-  else false
+def condHolds (cfg : Cfg) (eip712 : Bool) : CondKind → Bool
+  | .always => true
+  | .notEIP712 => !eip712
+  | .isEIP712 => eip712
+  | .hasFetchers => hasFetchers cfg
+  | .unknown => false
 
 /-- `sdk.ChainAnteDecorators`: run in order, the first refusal returns -/
-def runCosmos (cfg : Cfg) (md : Mode) (eip712 : Bool) (tx : Tx) : List (String × String) → Verdict
+def runChain (cfg : Cfg) (md : Mode) (eip712 : Bool) (tx : Tx) : List (CondKind × DecKind) → Verdict
   | [] => .pass
   | cn :: rest =>
     if condHolds cfg eip712 cn.1 then
       match decStep cfg md tx cn.2 with
-      | .pass => runCosmos cfg md eip712 tx rest
+      | .pass => runChain cfg md eip712 tx rest
       | r => r
-    else runCosmos cfg md eip712 tx rest
-
-def ethStep (tx : Tx) (name : String) : Verdict :=
-  if name == "evmante.NewEthSigVerificationDecorator" then
-    if ethOnlyDec tx.msgs then .pass else .reject "eth-only"
-  else .pass
-
-def runEth (tx : Tx) : List String → Verdict
-  | [] => .pass
-  | n :: rest =>
-    match ethStep tx n with
-    | .pass => runEth tx rest
-    | r => r
+    else runChain cfg md eip712 tx rest
 
 inductive Route where
   | cosmos (eip712 : Bool)
@@ -198,10 +213,15 @@ inductive Route where
   | reject (by_ : String)
   deriving DecidableEq, Repr
 
+/-- handler constructor name (as written in NewAnteHandler) → chain; an unset handler is a nil call = panic -/
 def handlerRoute (h : String) (eip712 : Bool) : Route :=
   if h == "newEthAnteHandler" then .eth
   else if h == "newCosmosAnteHandler" then .cosmos eip712
   else .reject "panic"
+
+/-- the generated extension-option switch, classified -/
+def extCasesK : List (String × Route) := c15ExtOptionCases.map fun c => (c.1, handlerRoute c.2.1 c.2.2)
+def fallThroughK : Route := handlerRoute c15FallThrough.1 c15FallThrough.2
 
 /-- the router of `NewAnteHandler` as a function of the extension-option type URLs -/
 def route (opts : List String) : Route :=
@@ -209,18 +229,18 @@ def route (opts : List String) : Route :=
   else if opts.length == c15ExtOptsRouteLen then
     match opts with
     | o :: _ =>
-      match c15ExtOptionCases.find? (fun c => c.1 == o) with
-      | some c => handlerRoute c.2.1 c.2.2
+      match extCasesK.lookup o with
+      | some r => r
       | none => if c15ExtDefaultRejects then .reject "ext-unknown" else .reject "panic"
     | [] => .reject "panic"            -- `opts[0]` on an empty slice
-  else handlerRoute c15FallThrough.1 c15FallThrough.2
+  else fallThroughK
 
 /-- the composed ante handler, restricted to the gates of property C15 -/
 def anteGate (cfg : Cfg) (md : Mode) (tx : Tx) : Verdict :=
   match route tx.opts with
   | .reject w => .reject w
-  | .eth => runEth tx c15EthChain
-  | .cosmos e => runCosmos cfg md e tx c15CosmosChain
+  | .eth => runChain cfg md false tx ethChainK
+  | .cosmos e => runChain cfg md e tx cosmosChainK
 
 /-! ### The reachability predicate (decidable form, used by the driver on implementation observations) -/
 
@@ -259,5 +279,21 @@ def sizeOne : Msg → Nat
   | .exec ms => 1 + sizeList ms
   | _ => 1
 end
+
+/-! ### The same notions said declaratively (what the property statements talk about) -/
+
+/-- `InExec m ms`: message `m` occurs strictly inside some `exec` of the forest `ms`, at any depth -/
+inductive InExec : Msg → List Msg → Prop
+  | child {m : Msg} {inner ms : List Msg} : Msg.exec inner ∈ ms → m ∈ inner → InExec m ms
+  | deeper {m : Msg} {inner ms : List Msg} : Msg.exec inner ∈ ms → InExec m inner → InExec m ms
+
+/-- `Anywhere m ms`: `m` is one of the transaction's own messages or occurs inside an exec at any depth -/
+def Anywhere (m : Msg) (ms : List Msg) : Prop := m ∈ ms ∨ InExec m ms
+
+/-- a message the decorator cannot unpack, or one that carries an authz URL without being the authz type -/
+def IsMalf (m : Msg) : Prop :=
+  m = .grantBad ∨ m = .execBad ∨ ∃ u, m = .plain u ∧ (u = c15MsgGrantURL ∨ u = c15MsgExecURL)
+
+def Malformed (ms : List Msg) : Prop := ∃ m, Anywhere m ms ∧ IsMalf m
 
 end KV.Ante
